@@ -193,6 +193,9 @@ func C08(c *core.Ctx) {
 	// R3: the UP F-SEID keeps addressing the session it was returned for: sessions end only through their own
 	// node (session-end path and ownership rules shared with C01 R6 / C04 R6)
 	c01EndPaths(c, "R3", false)
+	// "... or not answered at all, leaves no trace": a Session Report Response releases a session only when it comes
+	// from the peer the report was sent to — the SEID-0 match involves the whole source address (C05 R4)
+	shareFrom(c, "C05", "R3", func(o *core.Obligation) bool { return o.Rule == "R4" }, 2, "SEID-0 match rules")
 	// R6: what a response says about one IE of the request is computed from that IE alone
 	independentIterations(c, "R6", handlerFns(p))
 	// the bytes cached for replay to a retransmitted request are this response's own (not a buffer
@@ -258,6 +261,9 @@ func C08(c *core.Ctx) {
 				}
 			}
 			c.Check("R3", "est-fseid", ci.Pos(), okFseid, "the UP F-SEID returned is the LocalID of the session just created (the SEID that addresses it from now on)")
+			// "... a UP F-SEID that from then on addresses the new session": the F-SEID carries the UPF's address, which is
+			// its node id resolved — a node id may be a host name
+			nodeIDResolved(c, "R3")
 			c.Check("R3", "est-nodeid", ci.Pos(), okNode, "the response carries the UPF's own node id")
 		}
 	}
